@@ -1,1 +1,25 @@
-fn main(){}
+mod c09;
+mod c10;
+#[allow(dead_code)]
+#[path = "/repo/src/integrate/tables.rs"]
+mod tables;
+use vcore::Report;
+
+fn main() {
+    let id = std::env::args().nth(1).unwrap_or_default();
+    let id = if id == "replay" {
+        let f = std::env::args().nth(2).unwrap_or_default();
+        let v: serde_json::Value = serde_json::from_str(&std::fs::read_to_string(&f).unwrap_or_default()).unwrap_or_default();
+        v["property"].as_str().unwrap_or("").to_string()
+    } else {
+        id
+    };
+    match id.as_str() {
+        "C09" => c09::main(Report::from_args("exploration")),
+        "C10" => c10::main(Report::from_args("exploration")),
+        _ => {
+            eprintln!("MACHINERY: quad serves C09, C10");
+            std::process::exit(2)
+        }
+    }
+}
